@@ -566,3 +566,53 @@ def roots(repo: Repo, modules: Iterable[str]) -> List[FuncInfo]:
 def has_pos(path, i: int) -> bool:
     """the path takes the i-th component of a sequence: by index X[i] or by unpacking  a, b, c = X"""
     return f"item:{i}" in path or f"unpack:{i}" in path
+
+
+def must_pass_in_loop(G: "Guards", valuation: Dict[str, bool], loop: ast.AST, targets: Iterable[int]) -> bool:
+    """under the valuation, does every way through one iteration of `loop` (from the start of its body to the next iteration, to
+    the code after the loop or to a return) pass one of the `targets` nodes?  Paths that end in `raise` are fine."""
+    g = G.g
+    head = g.node_of(loop)
+    targets = set(targets)
+    inside = set()
+    for x in ast.walk(loop):
+        if isinstance(x, ast.stmt) and x is not loop:
+            n = g.node_of(x)
+            if n is not None:
+                inside.add(n)
+        if isinstance(x, ast.ExceptHandler):
+            n = g.node_of(x)
+            if n is not None:
+                inside.add(n)
+    starts = [m for m, l in g.succ[head] if l == "iter"]
+    for s_ in starts:
+        if s_ in targets:
+            continue
+        seen = G.reach(valuation, avoid=targets, start=s_)
+        for n in seen:
+            if n == head or (n not in inside and n != g.raise_):
+                return False
+    return True
+
+
+def unthreaded_options(repo: Repo, f: FuncInfo, pname: str):
+    """calls in f (a function that has the parameter `pname`) of repository functions that also have a parameter `pname` but are not
+    handed f's own value: the callee then falls back to its default.  Yields (call, callee, what was passed)."""
+    if pname not in f.params:
+        return
+    p = prov(repo, f)
+    for c in calls_in(f.node):
+        _cat, tg = repo.resolve_call(f, c)
+        for _k, t, _c in tg:
+            if t is None or pname not in t.params:
+                continue
+            a = arg_of(c, t, pname)
+            if a is None:
+                yield c, t, None
+                continue
+            try:
+                tr = p.trace(a)
+            except KeyError:
+                continue
+            if not any(x[0] == f"param:{pname}" for x in tr):
+                yield c, t, unparse(a, 40)
